@@ -36,7 +36,7 @@ SIG = {"stable": 0, "have-local-offer": 1, "have-remote-offer": 2, "have-local-p
 NCFG = 8
 
 OK, INVALID, VALUE, OTHER = 0, 1, -1, -2
-CASE_DEADLINE = 30.0
+CASE_DEADLINE = 60.0
 
 
 # ------------------------------------------------------------------ SDP text tools (independent of aiortc.sdp)
@@ -262,7 +262,7 @@ def run_case(case):
         try:
             descs, obs, notes = loop.run_until_complete(asyncio.wait_for(_run_pair(cfg, ops), CASE_DEADLINE))
         except asyncio.TimeoutError:
-            descs, obs = [], [[-3, "a call did not return within %ss" % CASE_DEADLINE]]
+            descs, obs, notes = [], [[-3, "a call did not return within %ss" % CASE_DEADLINE]], []
         pend = [t for t in asyncio.all_tasks(loop) if not t.done()]
         for t in pend:
             t.cancel()
@@ -281,7 +281,12 @@ def run_case(case):
                 t.join(1.0)
         if threading.active_count() > _BASE_THREADS[0]:
             leak = 2
-    return [descs, obs, leak]
+    return [descs, obs, leak, notes]
+
+
+def _warm_up():
+    """Pool initializer: import aiortc (and PyAV) and run one negotiation outside any deadline."""
+    run_case([0, [[0, 3], [1, 4, 0, 0, -1], [1, 3], [0, 4, 1, 0, -1]]])
 
 
 def _worker(chunk):
@@ -290,7 +295,7 @@ def _worker(chunk):
         try:
             out.append(run_case(c))
         except BaseException as exc:    # noqa: BLE001 - reported as a crash of the case
-            out.append([[], [[-9, repr(exc)[:80]]], 0])
+            out.append([[], [[-9, repr(exc)[:80]]], 0, []])
     return out
 
 
@@ -352,7 +357,7 @@ class C14(Check):
     prop = "C14"
     props_file = "Props/C14.v"
     models = ["Jsep"]
-    case_timeout = 60.0
+    case_timeout = 150.0
     random_quick = 2000
     level_note = (
         "Theorems are about Model/Jsep.v (one peer connection; descriptions abstracted to type + per media section "
@@ -402,7 +407,7 @@ class C14(Check):
     prop = "C14"
     props_file = "Props/C14.v"
     models = ["Jsep"]
-    case_timeout = 60.0
+    case_timeout = 150.0
     random_quick = 2000
     level_note = (
         "Theorems are about Model/Jsep.v (one peer connection; descriptions abstracted to type + per media section "
@@ -425,6 +430,7 @@ class C14(Check):
         self._outs = {}
         self._tier = "quick"
         self._n = None
+        self.retried = 0
 
     # ------------------------------------------------------------ generation
     def run(self, tier, seed, ncases=None):
@@ -538,25 +544,43 @@ class C14(Check):
 
     def gen_case(self, rng, i):
         if self._cases is None:
-            self._cases = self._build(rng)
-            self._precompute(self._cases)
+            # fork the worker processes while this process is still small, then build the case list
+            pool = self._pool()
+            try:
+                self._cases = self._build(rng)
+                self._precompute(pool, self._cases)
+            finally:
+                if pool is not None:
+                    pool.terminate()
+                    pool.join()
         if i < len(self._cases):
             return self._cases[i]
         return [rng.randrange(NCFG), self.random_ops(rng)]
 
-    def _precompute(self, cases):
-        """Run the implementation on all cases in a process pool (each worker process runs its cases
-        one after the other, each in a fresh event loop)."""
+    def _pool(self):
         nproc = max(1, min(12, (os.cpu_count() or 2) - 2))
-        if len(cases) < 200 or nproc == 1:
+        if nproc == 1 or (self._n is not None and self._n < 200):
+            return None
+        return multiprocessing.get_context("fork").Pool(nproc, initializer=_warm_up)
+
+    def _precompute(self, pool, cases):
+        """Run the implementation on all cases in a process pool (each worker process runs its cases
+        one after the other, each in a fresh event loop).  A case that hit the deadline or crashed the
+        worker is run once more here, alone; only a repeated failure is reported."""
+        if pool is None:
             return
         size = 200
         chunks = [cases[i:i + size] for i in range(0, len(cases), size)]
-        ctx = multiprocessing.get_context("fork")
-        with ctx.Pool(nproc) as pool:
-            for chunk, outs in zip(chunks, pool.imap(_worker, chunks)):
-                for c, o in zip(chunk, outs):
+        again = []
+        for chunk, outs in zip(chunks, pool.imap(_worker, chunks)):
+            for c, o in zip(chunk, outs):
+                if o[1] and o[1][0] and o[1][0][0] in (-3, -9):
+                    again.append(c)
+                else:
                     self._outs[id(c)] = (c, o)
+        self.retried = len(again)
+        for c in again:
+            self._outs[id(c)] = (c, run_case(c))
 
     def extra_search_cases(self, rng, n):
         return [[rng.randrange(NCFG), self.random_ops(rng)] for _ in range(min(n, 6000))]
@@ -598,12 +622,13 @@ class C14(Check):
         return out
 
     def model_canon(self, case, out):
-        return [self.impl_run(case)[0], out, 0]
+        impl = self.impl_run(case)
+        return [impl[0], out, 0, impl[3]]     # descriptions and exception names are inputs / annotations
 
     # ------------------------------------------------------------ oracle: the property, on the implementation
     def oracle(self, case, impl_out):
         cfg, ops = case
-        descs, obs, leak = impl_out
+        descs, obs, leak, notes = impl_out
         if obs and obs[0] and obs[0][0] == -9:
             return ("harness-crash", "the case crashed the harness: %s" % (obs[0][1],))
         if obs and obs[0] and obs[0][0] == -3:
@@ -652,8 +677,9 @@ class C14(Check):
                 return ("closed-not-absorbing", where + ": signalingState left 'closed'")
             if res != want:
                 names = {OK: "no exception", INVALID: "InvalidStateError", VALUE: "ValueError", OTHER: "another exception"}
-                return ("exception-class/" + why, "%s: raised %s, property says %s (%s)" %
-                        (where, names.get(res, res), names[want], why))
+                return ("exception-class/" + why, "%s: raised %s, property says %s (%s)%s" %
+                        (where, names.get(res, res), names[want], why,
+                         "".join(" [%s]" % x for x in notes if x.startswith("%d:" % n))))
             if res != OK:
                 if cur != prev[p]:
                     return ("rejected-call-changed-state", "%s: rejected (%s) but state/slots went %s -> %s" %
@@ -728,6 +754,7 @@ class C14(Check):
             d["completed_negotiation"] += done > 0
             d["renegotiated"] += done > 1
             d["closed"] += cl
+        d["rerun_after_deadline_or_worker_crash"] = self.retried
         return d
 
     def describe_case(self, case):
